@@ -1,5 +1,241 @@
-import PyAirtouch.Model.Discovery
-/-! placeholder until the proof file is merged -/
+import PyAirtouch.Lemmas.Discovery
+/-!
+# C18 — discovery
+
+Theorems about the model `PyAirtouch.Model.Discovery` of the UDP discovery client
+(`atN/comms/discovery.py`, `comms/discovery.py`, `factory.discover`) against the independent
+specification `PyAirtouch.Spec.Discovery` (vendor response format, request schedule).
+`c` ranges over the two configurations `cfg4`, `cfg5`; `toSpec` renames the fields of the model's
+`Response` into those of the specification's.
+-/
 namespace PyAirtouch.Props.C18
-theorem C18_placeholder : True := trivial
+open PyAirtouch.Model PyAirtouch.Model.Discovery PyAirtouch.Lemmas.Discovery
+open PyAirtouch.Spec.Discovery (readResponse marker4 marker5 expectedRequests returnTime expectedResponses)
+
+/-- A datagram yields an entry exactly when it is in the vendor response format of the generation,
+    and then with exactly its host, serial, id and name — for every datagram. -/
+theorem C18_received_eq_spec {c : Cfg} (hc : c = cfg4 ∨ c = cfg5) (d : Bytes) (r : Response) :
+    received c d = .added r ↔ readResponse c.gen d = some (toSpec r) := by
+  rcases hc with rfl | rfl
+  · exact received4_eq_spec d r
+  · exact received5_eq_spec d r
+
+/-- an AirTouch 5 response whose name contains commas and multi-byte text -/
+example :
+    let d := "192.168.1.9,23F4A1,AirTouch5,11223,Café, étage 2,左".toUTF8.toList.map (·.toNat)
+    let r : Response := ⟨5, "11223".toUTF8.toList.map (·.toNat), some ("Café, étage 2,左".toUTF8.toList.map (·.toNat)),
+      "23F4A1".toUTF8.toList.map (·.toNat), "192.168.1.9".toUTF8.toList.map (·.toNat)⟩
+    received cfg5 d = .added r ∧ readResponse cfg5.gen d = some (toSpec r) := by decide +kernel
+
+/-- Datagrams of any other form (echo of the request, wrong number of parts, marker elsewhere,
+    invalid UTF-8, empty) add nothing. -/
+theorem C18_nonresponse_adds_nothing {c : Cfg} (hc : c = cfg4 ∨ c = cfg5) (d : Bytes) :
+    readResponse c.gen d = none → ∀ r, received c d ≠ .added r := by
+  intro h r hr
+  rw [C18_received_eq_spec hc] at hr
+  rw [h] at hr; cases hr
+
+/-- the echo of the request, the empty datagram, too few parts, the marker in the wrong field,
+    an invalid UTF-8 serial -/
+example :
+    readResponse 5 Gen.Discovery.At5.requestData = none ∧ readResponse 4 Gen.Discovery.At4.requestData = none ∧
+    readResponse 5 [] = none ∧ readResponse 4 [] = none ∧
+    readResponse 5 ("10.0.0.2,AB,AirTouch5,77".toUTF8.toList.map (·.toNat)) = none ∧
+    readResponse 4 ("10.0.0.2,AirTouch4,AB,77".toUTF8.toList.map (·.toNat)) = none ∧
+    readResponse 4 ([49, 44, 255, 44] ++ marker4 ++ [44, 55]) = none ∧
+    received cfg4 ([49, 44, 255, 44] ++ marker4 ++ [44, 55]) = .raised .unicodeError ∧
+    received cfg4 ("10.0.0.2,AirTouch4,AB,77".toUTF8.toList.map (·.toNat)) = .decodeErrorLogged := by
+  decide +kernel
+
+/-- the request string itself is not in the response format and is ignored -/
+theorem C18_request_echo_ignored {c : Cfg} (hc : c = cfg4 ∨ c = cfg5) :
+    readResponse c.gen c.requestData = none ∧ received c c.requestData = .ignored := by
+  rcases hc with rfl | rfl <;> decide
+
+example : received cfg5 cfg5.requestData = .ignored ∧ cfg5.requestData ≠ [] := by decide
+
+/-- a datagram in the response format always passes the model's `match` pre-filter: it contains
+    `,AirTouchN,` (the marker is the third comma-separated field) and is not the request -/
+theorem C18_response_contains_marker {c : Cfg} (hc : c = cfg4 ∨ c = cfg5) (d : Bytes) :
+    (readResponse c.gen d).isSome → contains c.responseId d = true ∧ d ≠ c.requestData := by
+  intro h
+  obtain ⟨s, hs⟩ := Option.isSome_iff_exists.1 h
+  have hne : d ≠ c.requestData := by
+    intro e; rw [e, (C18_request_echo_ignored hc).1] at hs; cases hs
+  have hr : received c d = .added (ofSpec s) := (C18_received_eq_spec hc d _).2 (by rw [hs, toSpec_ofSpec])
+  refine ⟨?_, hne⟩
+  unfold received at hr
+  split at hr
+  · cases hr
+  · rename_i hm
+    have hb : (d == c.requestData) = false := by simpa using hne
+    simpa [«match», hb] using hm
+
+example : contains cfg4.responseId ("10.0.0.2,AB,AirTouch4,77".toUTF8.toList.map (·.toNat)) = true ∧
+    (readResponse cfg4.gen ("10.0.0.2,AB,AirTouch4,77".toUTF8.toList.map (·.toNat))).isSome := by decide +kernel
+
+/-- An AirTouch 5 datagram assembled from valid parts is added with exactly these parts; the name
+    may contain commas. -/
+theorem C18_valid_response_parts (host serial aid name : Bytes)
+    (hh : ∀ b ∈ host, b ≠ 44) (hs : ∀ b ∈ serial, b ≠ 44) (ha : ∀ b ∈ aid, b ≠ 44)
+    (vh : utf8Valid host = true) (vs : utf8Valid serial = true) (va : utf8Valid aid = true)
+    (vn : utf8Valid name = true) :
+    received cfg5 (host ++ [44] ++ serial ++ [44] ++ marker5 ++ [44] ++ aid ++ [44] ++ name)
+      = .added ⟨5, aid, some name, serial, host⟩ := by
+  rw [received5_eq_spec]
+  have hm : ∀ b ∈ marker5, b ≠ 44 := by decide +kernel
+  have e : host ++ [44] ++ serial ++ [44] ++ marker5 ++ [44] ++ aid ++ [44] ++ name
+      = host ++ 44 :: (serial ++ 44 :: (marker5 ++ 44 :: (aid ++ 44 :: name))) := by simp
+  rw [e]
+  simp only [readResponse, Nat.reduceEqDiff, if_false]
+  rw [splitFirst_cons _ _ _ hh, splitFirst_cons _ _ _ hs, splitFirst_cons _ _ _ hm, splitFirst_cons _ _ _ ha,
+    splitFirst_zero]
+  rw [utf8Valid_eq] at vh vs va vn
+  simp [vh, vs, va, vn, toSpec]
+
+example :
+    received cfg5 (("192.168.1.9".toUTF8.toList.map (·.toNat)) ++ [44] ++ ("23F4A1".toUTF8.toList.map (·.toNat)) ++ [44]
+        ++ marker5 ++ [44] ++ ("11223".toUTF8.toList.map (·.toNat)) ++ [44] ++ ("Café, étage 2,左".toUTF8.toList.map (·.toNat)))
+      = .added ⟨5, "11223".toUTF8.toList.map (·.toNat), some ("Café, étage 2,左".toUTF8.toList.map (·.toNat)),
+          "23F4A1".toUTF8.toList.map (·.toNat), "192.168.1.9".toUTF8.toList.map (·.toNat)⟩ := by
+  decide +kernel
+
+/-- The AirTouch 4 analogue; the id is the rest of the datagram (`split(b",", 3)`), so it needs no
+    comma-freeness. -/
+theorem C18_valid_response_parts4 (host serial aid : Bytes)
+    (hh : ∀ b ∈ host, b ≠ 44) (hs : ∀ b ∈ serial, b ≠ 44)
+    (vh : utf8Valid host = true) (vs : utf8Valid serial = true) (va : utf8Valid aid = true) :
+    received cfg4 (host ++ [44] ++ serial ++ [44] ++ marker4 ++ [44] ++ aid)
+      = .added ⟨4, aid, none, serial, host⟩ := by
+  rw [received4_eq_spec]
+  have hm : ∀ b ∈ marker4, b ≠ 44 := by decide +kernel
+  have e : host ++ [44] ++ serial ++ [44] ++ marker4 ++ [44] ++ aid
+      = host ++ 44 :: (serial ++ 44 :: (marker4 ++ 44 :: aid)) := by simp
+  rw [e]
+  simp only [readResponse, if_true]
+  rw [splitFirst_cons _ _ _ hh, splitFirst_cons _ _ _ hs, splitFirst_cons _ _ _ hm, splitFirst_zero]
+  rw [utf8Valid_eq] at vh vs va
+  simp [vh, vs, va, toSpec]
+
+example :
+    received cfg4 (("192.168.1.9".toUTF8.toList.map (·.toNat)) ++ [44] ++ ("98:D8:63:AA".toUTF8.toList.map (·.toNat)) ++ [44]
+        ++ marker4 ++ [44] ++ ("11223".toUTF8.toList.map (·.toNat)))
+      = .added ⟨4, "11223".toUTF8.toList.map (·.toNat), none,
+          "98:D8:63:AA".toUTF8.toList.map (·.toNat), "192.168.1.9".toUTF8.toList.map (·.toNat)⟩ := by
+  decide +kernel
+
+/-- The request schedule, for every arrival list (`search` is total by construction: structural
+    recursion on the remaining request count).  At most three requests at 0, 4, 8 (4 ticks = 0.5 s
+    apart); the request at `t` is sent iff no valid response arrived strictly before `t`; the search
+    returns at the end of the first interval in which a valid response arrived, at the latest at 12. -/
+theorem C18_search_requests {c : Cfg} (hc : c = cfg4 ∨ c = cfg5) (arr : List (Nat × Bytes)) :
+    (search c arr).1.Sublist [0, 4, 8] ∧
+    (search c arr).1 = expectedRequests c.gen arr ∧
+    (∀ t ∈ [0, 4, 8], t ∈ (search c arr).1 ↔ ∀ a ∈ arr, a.1 < t → readResponse c.gen a.2 = none) ∧
+    (search c arr).2.1 = returnTime c.gen arr ∧
+    (search c arr).2.1 ≤ 12 ∧
+    (∀ t ∈ [0, 4, 8], (∃ a ∈ arr, t ≤ a.1 ∧ a.1 < t + 4 ∧ (readResponse c.gen a.2).isSome) →
+      (∀ a ∈ arr, a.1 < t → readResponse c.gen a.2 = none) → (search c arr).2.1 = t + 4) ∧
+    ((∀ a ∈ arr, a.1 < 12 → readResponse c.gen a.2 = none) → (search c arr).2.1 = 12) := by
+  have H : Agree c c.gen := by rcases hc with rfl | rfl; exact agree4; exact agree5
+  have q0 := quiet_zero c.gen arr
+  have key : ∀ t, (∃ a ∈ arr, t ≤ a.1 ∧ a.1 < t + 4 ∧ (readResponse c.gen a.2).isSome) → ¬ Quiet c.gen arr (t + 4) := by
+    rintro t ⟨a, ha, _, h2, h3⟩ q
+    rw [q a ha h2] at h3; cases h3
+  rcases search_cases H arr with ⟨q4, hs, he⟩ | ⟨q4, q8, hs, he⟩ | ⟨q8, hs, he⟩
+  · have q8 : ¬ Quiet c.gen arr 8 := fun h => q4 (quiet_mono (by omega) h)
+    refine ⟨by rw [hs]; exact (by decide : [0].Sublist [0, 4, 8]), by rw [hs, he], ?_, by simp [hs, returnTime, he], by simp [hs], ?_, ?_⟩
+    · intro t ht
+      simp only [List.mem_cons, List.not_mem_nil, or_false] at ht
+      rcases ht with rfl | rfl | rfl
+      · rw [hs]; exact iff_of_true (by simp) q0
+      · rw [hs]; exact iff_of_false (by simp) q4
+      · rw [hs]; exact iff_of_false (by simp) q8
+    · intro t ht hex hq
+      simp only [List.mem_cons, List.not_mem_nil, or_false] at ht
+      rcases ht with rfl | rfl | rfl
+      · simp [hs]
+      · exact absurd hq q4
+      · exact absurd hq q8
+    · intro hq; exact absurd (quiet_mono (by omega) hq) q4
+  · refine ⟨by rw [hs]; exact (by decide : [0, 4].Sublist [0, 4, 8]), by rw [hs, he], ?_, by simp [hs, returnTime, he], by simp [hs], ?_, ?_⟩
+    · intro t ht
+      simp only [List.mem_cons, List.not_mem_nil, or_false] at ht
+      rcases ht with rfl | rfl | rfl
+      · rw [hs]; exact iff_of_true (by simp) q0
+      · rw [hs]; exact iff_of_true (by simp) q4
+      · rw [hs]; exact iff_of_false (by simp) q8
+    · intro t ht hex hq
+      simp only [List.mem_cons, List.not_mem_nil, or_false] at ht
+      rcases ht with rfl | rfl | rfl
+      · exact absurd q4 (key 0 hex)
+      · simp [hs]
+      · exact absurd hq q8
+    · intro hq; exact absurd (quiet_mono (by omega) hq) q8
+  · have q4 : Quiet c.gen arr 4 := quiet_mono (by omega) q8
+    refine ⟨by rw [hs]; exact (by decide : [0, 4, 8].Sublist [0, 4, 8]), by rw [hs, he], ?_, by simp [hs, returnTime, he], by simp [hs], ?_, ?_⟩
+    · intro t ht
+      simp only [List.mem_cons, List.not_mem_nil, or_false] at ht
+      rcases ht with rfl | rfl | rfl
+      · rw [hs]; exact iff_of_true (by simp) q0
+      · rw [hs]; exact iff_of_true (by simp) q4
+      · rw [hs]; exact iff_of_true (by simp) q8
+    · intro t ht hex hq
+      simp only [List.mem_cons, List.not_mem_nil, or_false] at ht
+      rcases ht with rfl | rfl | rfl
+      · exact absurd q4 (key 0 hex)
+      · exact absurd q8 (key 4 hex)
+      · simp [hs]
+    · intro _; simp [hs]
+
+/-- noise at 1, a valid response at 5 and again at 6, a late one at 9: requests at 0 and 4, return at 8 -/
+example :
+    let v := "10.0.0.2,AB,AirTouch4,77".toUTF8.toList.map (·.toNat)
+    let arr := [(1, [1, 2, 3]), (5, v), (6, v), (9, "10.0.0.3,CD,AirTouch4,78".toUTF8.toList.map (·.toNat))]
+    (search cfg4 arr).1 = [0, 4] ∧ (search cfg4 arr).2.1 = 8 ∧ (search cfg4 arr).2.2.length = 1 ∧
+    (search cfg4 []).1 = [0, 4, 8] ∧ (search cfg4 []).2.1 = 12 := by decide +kernel
+
+/-- The collected responses are duplicate-free and are exactly the expected ones (as a set: the
+    model keeps the first occurrence of a duplicate, the specification's `dedup` the last). -/
+theorem C18_search_responses {c : Cfg} (hc : c = cfg4 ∨ c = cfg5) (arr : List (Nat × Bytes)) :
+    (search c arr).2.2.Nodup ∧
+    ∀ r, r ∈ (search c arr).2.2 ↔ toSpec r ∈ expectedResponses c.gen arr := by
+  have H : Agree c c.gen := by rcases hc with rfl | rfl; exact agree4; exact agree5
+  have aux : ∀ t, Quiet c.gen arr t → (search c arr).2.2 = W c arr t → returnTime c.gen arr = t + 4 →
+      (search c arr).2.2.Nodup ∧ ∀ r, r ∈ (search c arr).2.2 ↔ toSpec r ∈ expectedResponses c.gen arr := by
+    intro t q hs hr
+    rw [hs]
+    refine ⟨nodup_W _ _ _, fun r => ?_⟩
+    rw [mem_W H, mem_expectedResponses, hr]
+    constructor
+    · rintro ⟨a, ha, _, h2, h3⟩; exact ⟨a, ha, h2, h3⟩
+    · rintro ⟨a, ha, h2, h3⟩
+      refine ⟨a, ha, ?_, h2, h3⟩
+      apply Nat.le_of_not_lt
+      intro hlt; rw [q a ha hlt] at h3; cases h3
+  rcases search_cases H arr with ⟨_, hs, he⟩ | ⟨q4, _, hs, he⟩ | ⟨q8, hs, he⟩
+  · exact aux 0 (quiet_zero _ _) (by rw [hs]) (by simp [returnTime, he])
+  · exact aux 4 q4 (by rw [hs]) (by simp [returnTime, he])
+  · exact aux 8 q8 (by rw [hs]) (by simp [returnTime, he])
+
+/-- two distinct consoles and a repeated answer within the first interval -/
+example :
+    let v := "10.0.0.2,AB,AirTouch5,77,Home".toUTF8.toList.map (·.toNat)
+    let w := "10.0.0.3,CD,AirTouch5,78,Up, stairs".toUTF8.toList.map (·.toNat)
+    let arr := [(1, v), (2, w), (3, v), (5, "10.0.0.4,EF,AirTouch5,79,Late".toUTF8.toList.map (·.toNat))]
+    (search cfg5 arr).2.2.length = 2 ∧ (expectedResponses 5 arr).length = 2 ∧
+    (search cfg5 arr).2.2.map toSpec = (expectedResponses 5 arr).reverse := by decide +kernel
+
+/-- The client built for a response: fixed TCP port of the generation, host / id / serial of the
+    response; AirTouch 4 consoles are named "AirTouch 4", AirTouch 5 ones by the datagram's name. -/
+theorem C18_factory (aid serial host name : Bytes) :
+    clientOf ⟨4, aid, none, serial, host⟩
+      = ⟨4, host, 9004, aid, "AirTouch 4".toUTF8.toList.map (·.toNat), serial⟩ ∧
+    clientOf ⟨5, aid, some name, serial, host⟩ = ⟨5, host, 9005, aid, name, serial⟩ := by
+  constructor <;> rfl
+
+example : (clientOf ⟨5, [55], some [72, 44, 105], [65], [49]⟩).port = 9005 ∧
+    (clientOf ⟨5, [55], some [72, 44, 105], [65], [49]⟩).name = [72, 44, 105] ∧
+    (clientOf ⟨4, [55], none, [65], [49]⟩).port = 9004 := by decide
+
 end PyAirtouch.Props.C18
